@@ -167,7 +167,7 @@ Section Main.
   (** labels the server has and the attempt's starting point did not are known to the in-memory pod *)
   Definition J (st : store) (m : mem) : Prop :=
     (forall g, In g (p_multi (self st)) -> In g (p_multi (self init)) \/ In g (m_multi m))
-    /\ (p_plain (self st) = p_plain (self init) \/ opt_is_some (m_plain m) = true).
+    /\ (forall g, p_plain (self st) = Some g -> p_plain (self init) = Some g \/ opt_is_some (m_plain m) = true).
 
   (** config maps that were not there before can only exist for a shared-GPU request with the annotation *)
   Definition K (st : store) : Prop :=
@@ -183,15 +183,6 @@ Section Main.
   (** the in-memory pod's labels are the server's *)
   Definition M (s : state) : Prop :=
     m_plain (s_mem s) = p_plain (self (s_store s)) /\ m_multi (s_mem s) = p_multi (self (s_store s)).
-
-  Lemma M_J st m : m_plain m = p_plain (self st) -> m_multi m = p_multi (self st) ->
-    (forall g, In g (p_multi (self st)) -> In g (p_multi (self init)) \/ In g (m_multi m)) /\
-    (p_plain (self st) = p_plain (self init) \/ opt_is_some (m_plain m) = true \/ p_plain (self st) = None).
-  Proof.
-    intros H1 H2. split.
-    - intros g Hg. right. rewrite H2. exact Hg.
-    - rewrite H1. destruct (p_plain (self st)); auto.
-  Qed.
 
   Lemma INV_only_others s s' : INV s -> G s' -> only_others s s' -> INV s'.
   Proof.
@@ -433,22 +424,15 @@ Section Main.
         split; [apply HI2 | auto]. }
     pose proof (frame_oth_trans _ _ _ F12 F3) as F123.
     destruct (step_nfail _ _ _ _ E2) as (Hle2 & Hflt2 & Hrch2).
-    assert (Hfail : forall r2', (forall i, r2' <> RIdx i) ->
-              (s_nfail s2 = s_nfail s -> dp_ok -> r2 = r2' -> False) ->
-              let k := fun r2 : resp => match r2 with
-                                        | RIdx i => Ret (Some i)
-                                        | _ => Api (ADeletePod (rsv_name g) (PRsv g)) (fun _ : resp => Ret None)
-                                        end in
-              r2 = r2' ->
-              INV (fst (exec (k r2) s2)) /\ frame_oth s (fst (exec (k r2) s2))
-              /\ (forall i, snd (exec (k r2) s2) = Some i ->
-                    others (s_store (fst (exec (k r2) s2))) = others (s_store s) ++ [new_rsv g (Some i)])
-              /\ (s_nfail (fst (exec (k r2) s2)) = s_nfail s -> dp_ok ->
-                  has_pod (rsv_name g) (others (s_store s)) = false -> exists i, snd (exec (k r2) s2) = Some i)).
-    { intros r2' Hni Hlive k ->. destruct (cleanup_delete g s2 HI3) as (D1 & D2 & D3).
-      assert (Hk : k r2' = Api (ADeletePod (rsv_name g) (PRsv g)) (fun _ : resp => Ret None)).
-      { unfold k. destruct r2'; try reflexivity. exfalso. eapply Hni. reflexivity. }
-      rewrite Hk. split; [exact D1 |]. split; [eapply frame_oth_trans; eauto |].
+    assert (Hfail : (s_nfail s2 = s_nfail s -> dp_ok -> False) ->
+              let P := Api (ADeletePod (rsv_name g) (PRsv g)) (fun _ : resp => Ret (@None nat)) in
+              INV (fst (exec P s2)) /\ frame_oth s (fst (exec P s2))
+              /\ (forall i, snd (exec P s2) = Some i ->
+                    others (s_store (fst (exec P s2))) = others (s_store s) ++ [new_rsv g (Some i)])
+              /\ (s_nfail (fst (exec P s2)) = s_nfail s -> dp_ok ->
+                  has_pod (rsv_name g) (others (s_store s)) = false -> exists i, snd (exec P s2) = Some i)).
+    { intros Hlive P. destruct (cleanup_delete g s2 HI3) as (D1 & D2 & D3). fold P in D1, D2, D3.
+      split; [exact D1 |]. split; [eapply frame_oth_trans; eauto |].
       split; [intros i Hi; rewrite D3 in Hi; discriminate |].
       intros Hnf Hdp _. exfalso. apply Hlive; auto.
       destruct D2 as (_&_&_&_&_&_&_&Hle3). destruct F123 as (_&_&_&_&_&_&_&Hle4). lia. }
@@ -461,7 +445,7 @@ Section Main.
       - eapply Hdp. exact Hnone.
       - rewrite Hst2 in Hnp. cbn [set_others others] in Hnp. rewrite has_pod_app in Hnp.
         simpl in Hnp. rewrite Nat.eqb_refl, orb_true_r in Hnp. discriminate. }
-    destruct r2; try (apply (Hfail _ ltac:(discriminate) (Hlive _ ltac:(discriminate)) eq_refl)).
+    destruct r2; try (apply Hfail; intros Hnf Hdp; eapply Hlive; eauto; discriminate).
     (* RIdx: the device plugin answered *)
     cbn [Binder.exec fst snd].
     assert (Ho3 : others (s_store s2) = others (s_store s) ++ [new_rsv g (Some i)]).
@@ -470,9 +454,375 @@ Section Main.
       - destruct Hr as (_ & _ & _ & Hd & _). cbn [is_watch] in Hd.
         destruct (do_watch _ _ _ _ _ _ Hd) as [(i' & _ & _ & Hst & Hr) | (_ & Hr & _)]; [| discriminate].
         injection Hr as <-. rewrite Hst, Hst2. cbn [set_others others].
-        apply (upd_pod_fresh (rsv_name g) _ (others (s_store s)) (new_rsv g None) Hhp eq_refl). }
+        rewrite (upd_pod_fresh (rsv_name g) _ (others (s_store s)) (new_rsv g None) Hhp eq_refl). reflexivity. }
     split; [exact HI3 |]. split; [exact F123 |].
     split; [intros i' Hi'; injection Hi' as <-; exact Ho3 |].
     intros _ _ _. eauto.
+  Qed.
+
+  Lemma INV_mem_ext s s' :
+    s_store s' = s_store s -> s_mem s' = s_mem s -> s_log s' = s_log s -> s_hist s' = s_hist s ->
+    s_mark s' = s_mark s -> s_mark_end s' = s_mark_end s -> INV s -> INV s'.
+  Proof.
+    intros H1 H2 H3 H4 H5 H6 (HG & (Hk & Hke) & HJ & HK & Hn & Hbr & Hno & Hsh).
+    unfold INV, marks_none. rewrite H1, H2, H5, H6. split; [eapply G_ext; eauto |]. auto 10.
+  Qed.
+
+  (** updatePodGPUGroup *)
+  Lemma label_consumer_spec g i s :
+    INV s -> M s ->
+    let s' := fst (exec (label_consumer sc g i) s) in
+    let r := snd (exec (label_consumer sc g i) s) in
+    INV s' /\ s_nfail s <= s_nfail s'
+    /\ cm_cap (s_store s') = cm_cap (s_store s) /\ cm_evar (s_store s') = cm_evar (s_store s)
+    /\ (forall i', r = Some i' ->
+          i' = i /\ M s' /\ others (s_store s') = others (s_store s)
+          /\ p_plain (self (s_store s')) = (if sc_multi sc then p_plain (self (s_store s)) else Some g)
+          /\ (forall x, In x (p_multi (self (s_store s))) -> In x (p_multi (self (s_store s'))))
+          /\ (sc_multi sc = true -> In g (p_multi (self (s_store s')))))
+    /\ (s_nfail s' = s_nfail s -> r = Some i).
+  Proof.
+    intros HI (HM1 & HM2). unfold label_consumer. cbn [Binder.exec].
+    set (m := s_mem s).
+    set (m' := if sc_multi sc then mem_with_labels m (m_plain m) (add_set g (m_multi m))
+               else mem_with_labels m (Some g) (m_multi m)).
+    set (dplain := if sc_multi sc then None else if opt_nat_eqb (m_plain m) (Some g) then None else Some g).
+    set (dmulti := if sc_multi sc then if mem_nat g (m_multi m) then None else Some g else None).
+    match goal with |- context [Binder.step _ _ _ ?st] => set (sa := st) end.
+    assert (HIa : INV sa).
+    { apply (INV_set_mem s m' HI). destruct HI as (_ & _ & (J1 & J2) & _). split.
+      - intros x Hx. right. unfold m'. fold m in HM2. destruct (sc_multi sc); simpl.
+        + apply add_set_In. right. rewrite HM2. exact Hx.
+        + rewrite HM2. exact Hx.
+      - intros x Hx. right. unfold m'. fold m in HM1. destruct (sc_multi sc); simpl.
+        + rewrite HM1, Hx. reflexivity.
+        + reflexivity. }
+    apin E1 s1 r1.
+    assert (Halive : self_alive (s_store sa) = true) by apply HIa.
+    set (p' := with_labels (self (s_store s))
+                 (match dplain with Some x => Some x | None => p_plain (self (s_store s)) end)
+                 (match dmulti with Some x => add_set x (p_multi (self (s_store s))) | None => p_multi (self (s_store s)) end)).
+    assert (Hreach : reached dp (APatchLabels dplain dmulti) sa s1 r1 ->
+                     s_store s1 = set_self (s_store s) p' /\ r1 = RPod p').
+    { intros (_ & _ & _ & Hd & _). cbn [is_watch] in Hd. apply (do_patch_labels _ _ _ _ _ _ Halive Hd). }
+    assert (Hp'plain : p_plain p' = if sc_multi sc then p_plain (self (s_store s)) else Some g).
+    { unfold p', dplain. fold m in HM1. simpl. destruct (sc_multi sc); [reflexivity |].
+      destruct (opt_nat_eqb (m_plain m) (Some g)) eqn:Eq; [| reflexivity].
+      apply opt_nat_eqb_eq in Eq. congruence. }
+    assert (Hp'multi : p_multi p' = if sc_multi sc then add_set g (p_multi (self (s_store s)))
+                                   else p_multi (self (s_store s))).
+    { unfold p', dmulti. fold m in HM2. simpl. destruct (sc_multi sc); [| reflexivity].
+      destruct (mem_nat g (m_multi m)) eqn:Em; [| reflexivity].
+      unfold add_set. rewrite <- HM2, Em. reflexivity. }
+    assert (HI1 : INV s1).
+    { eapply INV_step; eauto; [exact I |]. intros Hr. destruct (Hreach Hr) as (Hst & _). rewrite Hst.
+      destruct HIa as (HGa & _ & (J1 & J2) & HKa & Hna & Hbra & Hnoa & _).
+      destruct HGa as ((Ha & Hn0 & Hrs & Hp & Ho) & _).
+      split; [unfold base; simpl; auto 10 |]. split; [exact Hna |]. split.
+      - split.
+        + intros x Hx. right. cbn [self set_self] in Hx. rewrite Hp'multi in Hx. unfold m'. fold m in HM2.
+          destruct (sc_multi sc); simpl.
+          * rewrite HM2. exact Hx.
+          * rewrite HM2. exact Hx.
+        + cbn [self set_self]. rewrite Hp'plain. intros x Hx. right. unfold m'. fold m in HM1.
+          destruct (sc_multi sc); simpl.
+          * rewrite HM1, Hx. reflexivity.
+          * reflexivity.
+      - split; [exact HKa |]. split; [exact Hbra |]. split; [exact Hnoa |]. auto. }
+    destruct (step_nfail _ _ _ _ E1) as (Hle1 & Hflt1 & Hrch1).
+    pose proof (step_spec _ _ _ _ _ _ E1) as (Hm1 & _ & _ & Hcase).
+    assert (Hcms1 : cm_cap (s_store s1) = cm_cap (s_store s) /\ cm_evar (s_store s1) = cm_evar (s_store s)).
+    { destruct Hcase as [Hf | Hr].
+      - destruct Hf as (_ & Hst & _). rewrite Hst. auto.
+      - destruct (Hreach Hr) as (Hst & _). rewrite Hst. auto. }
+    assert (Hfailpath :
+      let P := (_ <- sync_group g ;; Ret (@None nat)) in
+      (s_nfail s1 = s_nfail s -> False) ->
+      INV (fst (exec P s1)) /\ s_nfail s <= s_nfail (fst (exec P s1))
+      /\ cm_cap (s_store (fst (exec P s1))) = cm_cap (s_store s)
+      /\ cm_evar (s_store (fst (exec P s1))) = cm_evar (s_store s)
+      /\ (forall i', snd (exec P s1) = Some i' -> False)
+      /\ (s_nfail (fst (exec P s1)) = s_nfail s -> False)).
+    { intros P Hne. unfold P. rewrite exec_bind.
+      destruct (sync_group_spec faults dp ord g s1 (proj1 HI1)) as (S1 & S2 & _).
+      destruct (exec (sync_group g) s1) as [s2 e2]. cbn [fst snd Binder.exec] in *.
+      split; [eapply INV_only_others; eauto |].
+      destruct S2 as (_ & _ & O3 & O4 & _ & _ & _ & _ & _ & _ & O11 & _).
+      assert (s_nfail sa = s_nfail s) by reflexivity.
+      split; [lia |]. split; [destruct Hcms1; congruence |]. split; [destruct Hcms1; congruence |].
+      split; [discriminate |]. intros Hx. apply Hne. lia. }
+    assert (Hsa : s_nfail sa = s_nfail s) by reflexivity.
+    destruct r1;
+      try (destruct Hfailpath as (F1 & F2 & F3 & F4 & F5 & F6);
+           [ intros Hx; rewrite <- Hsa in Hx; destruct (Hrch1 Hx) as (_ & _ & _ & Hd & _); cbn [is_watch] in Hd;
+             destruct (do_patch_labels _ _ _ _ _ _ Halive Hd) as (_ & Hr); discriminate
+           | split; [exact F1 |]; split; [exact F2 |]; split; [exact F3 |]; split; [exact F4 |];
+             split; [intros i' Hi'; exfalso; eapply F5; eauto | intros Hx; exfalso; auto] ]).
+    (* RPod: the patch reached the server *)
+    assert (Hr : reached dp (APatchLabels dplain dmulti) sa s1 (RPod p)).
+    { destruct Hcase as [(Hx & _) | Hr]; [discriminate | exact Hr]. }
+    destruct (Hreach Hr) as (Hst & Hrp). injection Hrp as ->.
+    cbn [Binder.exec fst snd].
+    match goal with |- context [INV ?st] => set (sb := st) end.
+    assert (HIb : INV sb).
+    { apply (INV_set_mem s1 (mem_of p') HI1). rewrite Hst. split.
+      - intros x Hx. right. exact Hx.
+      - cbn [self set_self mem_of m_plain]. intros x Hx. right. rewrite Hx. reflexivity. }
+    split; [exact HIb |].
+    assert (Hnfb : s_nfail sb = s_nfail s1) by reflexivity.
+    split; [lia |]. destruct Hcms1 as (C1 & C2).
+    split; [exact C1 |]. split; [exact C2 |].
+    split.
+    - intros i' Hi'. injection Hi' as <-. split; [reflexivity |].
+      split; [unfold M; cbn [sb s_mem s_store set_mem]; rewrite Hst; split; reflexivity |].
+      cbn [sb s_store set_mem]. rewrite Hst. cbn [set_self others self].
+      split; [reflexivity |]. split; [exact Hp'plain |]. rewrite Hp'multi. split.
+      + intros x Hx. destruct (sc_multi sc); [apply add_set_In; auto | exact Hx].
+      + intros ->. apply add_set_In. auto.
+    - intros _. reflexivity.
+  Qed.
+
+  (** ** reservation pods of a group *)
+  Definition fg (g : gid) (p : pod) : bool := p_rsv p && opt_nat_eqb (p_plain p) (Some g).
+  Definition ridx (g : gid) (o : list pod) : option nat :=
+    match filter (fg g) o with p :: _ => p_idx p | [] => None end.
+
+  Lemma rsv_idx_ridx g st : rsv_idx g st = ridx g (others st).
+  Proof. reflexivity. Qed.
+
+  Lemma ridx_app_some g o x j : ridx g o = Some j -> ridx g (o ++ [x]) = Some j.
+  Proof.
+    unfold ridx. rewrite filter_app. destruct (filter (fg g) o); [discriminate | auto].
+  Qed.
+
+  Lemma ridx_app_new g o i : filter (fg g) o = [] -> ridx g (o ++ [new_rsv g (Some i)]) = Some i.
+  Proof.
+    intros H. unfold ridx. rewrite filter_app, H. simpl. unfold fg. simpl. rewrite Nat.eqb_refl. reflexivity.
+  Qed.
+
+  Lemma filter_filter {A} (f h : A -> bool) l : filter f (filter h l) = filter (fun x => h x && f x) l.
+  Proof.
+    induction l as [| x l IH]; [reflexivity |]. simpl. destruct (h x); simpl; [| exact IH].
+    destruct (f x); simpl; rewrite IH; reflexivity.
+  Qed.
+
+  Lemma filter_none {A} (f : A -> bool) l : (forall x, In x l -> f x = false) -> filter f l = [].
+  Proof.
+    induction l as [| x l IH]; intros H; [reflexivity |]. simpl. rewrite (H x (or_introl eq_refl)).
+    apply IH. intros y Hy. apply H. right. exact Hy.
+  Qed.
+
+  Lemma list_rsv g st : base st -> filter (selects (LRsv g)) (all_pods st) = filter (fg g) (others st).
+  Proof.
+    intros (Ha & _ & Hr & _). unfold all_pods. rewrite Ha, !filter_app, filter_filter.
+    assert (H2 : filter (selects (LRsv g)) [self st] = []).
+    { simpl. rewrite Hr. reflexivity. }
+    assert (H3 : filter (selects (LRsv g)) (filter (fun p => negb (p_rsv p)) (others st)) = []).
+    { rewrite filter_filter. apply filter_none. intros x _. simpl. destruct (p_rsv x); reflexivity. }
+    rewrite H2, H3, !app_nil_r. apply filter_ext. intros x. unfold fg. simpl.
+    destruct (p_rsv x); reflexivity.
+  Qed.
+
+  Lemma all_idx_ext gs st st' :
+    (forall g j, In g gs -> rsv_idx g st = Some j -> rsv_idx g st' = Some j) ->
+    forall acc, all_idx gs st = Some acc -> all_idx gs st' = Some acc.
+  Proof.
+    induction gs as [| g gs IH]; intros H acc Ha; [exact Ha |].
+    simpl in *. destruct (rsv_idx g st) as [j |] eqn:Ej; [| discriminate].
+    rewrite (H g j (or_introl eq_refl) Ej).
+    destruct (all_idx gs st) as [l |] eqn:El; [| discriminate].
+    rewrite (IH (fun g' j' Hg' => H g' j' (or_intror Hg')) l eq_refl). exact Ha.
+  Qed.
+
+  Lemma all_idx_app gs g st acc i :
+    all_idx gs st = Some acc -> rsv_idx g st = Some i -> all_idx (gs ++ [g]) st = Some (acc ++ [i]).
+  Proof.
+    revert acc. induction gs as [| g0 gs IH]; intros acc Ha Hg; simpl in *.
+    - injection Ha as <-. rewrite Hg. reflexivity.
+    - destruct (rsv_idx g0 st); [| discriminate]. destruct (all_idx gs st) as [l |]; [| discriminate].
+      injection Ha as <-. rewrite (IH l eq_refl Hg). reflexivity.
+  Qed.
+
+  Definition annotated (st : store) : Prop := Forall (fun p => opt_is_some (p_idx p) = true) (others st).
+  Definition Live (st : store) : Prop := SH st /\ annotated st.
+
+  (** ReserveGpuDevice *)
+  Definition rg_post (g : gid) (s s' : state) (r : option nat) : Prop :=
+    INV s' /\ s_nfail s <= s_nfail s'
+    /\ cm_cap (s_store s') = cm_cap (s_store s) /\ cm_evar (s_store s') = cm_evar (s_store s)
+    /\ (forall i, r = Some i ->
+          M s' /\ rsv_idx g (s_store s') = Some i
+          /\ (forall g' j, rsv_idx g' (s_store s) = Some j -> rsv_idx g' (s_store s') = Some j)
+          /\ p_plain (self (s_store s')) = (if sc_multi sc then p_plain (self (s_store s)) else Some g)
+          /\ (forall x, In x (p_multi (self (s_store s))) -> In x (p_multi (self (s_store s'))))
+          /\ (sc_multi sc = true -> In g (p_multi (self (s_store s')))))
+    /\ (s_nfail s' = s_nfail s -> dp_ok -> Live (s_store s) -> (exists i, r = Some i) /\ Live (s_store s')).
+
+  Lemma reserve_gpu_spec g s :
+    INV s -> M s ->
+    rg_post g s (fst (exec (reserve_gpu sc g) s)) (snd (exec (reserve_gpu sc g) s)).
+  Proof.
+    intros HI HM. unfold reserve_gpu. apin E0 s1 r1.
+    destruct (ro_step (AList (LRsv g)) _ _ _ HI eq_refl E0) as (HI1 & Hst1 & Hm1 & Hn1 & Hlv1).
+    assert (HM1 : M s1) by (unfold M; rewrite Hst1, Hm1; exact HM).
+    assert (Hnone : forall P : prog (option nat), P = Ret None ->
+              (s_nfail s1 = s_nfail s -> dp_ok -> Live (s_store s) -> False) ->
+              rg_post g s (fst (exec P s1)) (snd (exec P s1))).
+    { intros P -> Hl. unfold rg_post. cbn [Binder.exec fst snd]. rewrite Hst1.
+      split; [exact HI1 |]. split; [exact Hn1 |]. split; [reflexivity |]. split; [reflexivity |].
+      split; [intros i Hi; discriminate Hi |]. intros A B C. exfalso. eauto. }
+    destruct r1 as [| | | | l | | | | |];
+      try (apply Hnone; [reflexivity |]; intros Hx _ _; destruct (Hlv1 Hx) as (Hr & _); cbn [do_call snd] in Hr;
+           discriminate Hr).
+    assert (Hl : l = filter (fg g) (others (s_store s)) /\ s_nfail s1 = s_nfail s).
+    { pose proof (step_spec _ _ _ _ _ _ E0) as (_ & _ & _ & [Hf | Hr]).
+      - destruct Hf as (Hx & _). discriminate.
+      - destruct Hr as (_ & _ & Hnf & Hd & _). cbn [do_call is_watch] in Hd. injection Hd as _ Hd.
+        rewrite list_rsv in Hd; [auto | apply HI]. }
+    destruct Hl as (Hl & Hnf1).
+    assert (Hlive_add : forall i o', o' = others (s_store s) ++ [new_rsv g (Some i)] ->
+              Live (s_store s) -> forall st', others st' = o' -> Live st').
+    { intros i o' -> (Hsh & Han) st' Ho. destruct (SH_add (s_store s) g (Some i) _ eq_refl Hsh) as (A1 & A2).
+      split; [split |].
+      - unfold rsv_only in *. rewrite Ho. exact A1.
+      - unfold names_ok in *. rewrite Ho. exact A2.
+      - unfold annotated in *. rewrite Ho. apply Forall_app. split; [exact Han |]. constructor; [reflexivity | constructor]. }
+    destruct l as [| p l].
+    - (* no reservation pod yet: create one and wait for its device *)
+      rewrite exec_bind.
+      destruct (create_and_wait_spec g s1 HI1) as (C1 & C2 & C3 & C4).
+      destruct (exec (create_and_wait g) s1) as [s2 oi] eqn:Ecw. cbn [fst snd] in *.
+      destruct C2 as (Cm & Cself & Calive & Ccap & Cevar & Cbr & Cno & Cnf).
+      unfold rg_post. destruct oi as [i |].
+      + assert (HM2 : M s2) by (unfold M; rewrite Cm, Cself; exact HM1).
+        destruct (label_consumer_spec g i s2 C1 HM2) as (L1 & L2 & L3 & L4 & L5 & L6).
+        split; [exact L1 |]. split; [lia |]. split; [congruence |]. split; [congruence |].
+        pose proof (C3 i eq_refl) as Ho2. rewrite Hst1 in Ho2.
+        split.
+        * intros i' Hi'. destruct (L5 i' Hi') as (-> & LM & Lo & Lp & Lmu & Lg).
+          split; [exact LM |]. rewrite Cself, Hst1 in Lp, Lmu.
+          split; [rewrite rsv_idx_ridx, Lo, Ho2; apply ridx_app_new; auto |].
+          split; [intros g' j Hj; rewrite rsv_idx_ridx in *; rewrite Lo, Ho2; apply ridx_app_some; exact Hj |].
+          split; [exact Lp |]. split; [exact Lmu | exact Lg].
+        * intros Hnf Hdp Hlv. split; [eexists; apply L6; lia |].
+          assert (Hi' : snd (exec (label_consumer sc g i) s2) = Some i) by (apply L6; lia).
+          destruct (L5 i Hi') as (_ & _ & Lo & _).
+          eapply Hlive_add; [reflexivity | exact Hlv |]. rewrite Lo. exact Ho2.
+      + (* reservation failed *)
+        cbn [Binder.exec fst snd]. split; [exact C1 |]. split; [lia |].
+        split; [congruence |]. split; [congruence |]. split; [discriminate |].
+        intros Hnf Hdp ((Hro & Hnm) & Han). exfalso.
+        destruct C4 as (i & Hi); auto; [lia | | discriminate].
+        rewrite Hst1. destruct (has_pod (rsv_name g) (others (s_store s))) eqn:Eh; [| reflexivity].
+        unfold has_pod in Eh. apply existsb_exists in Eh as (q & Hq & Hqn). apply Nat.eqb_eq in Hqn.
+        unfold rsv_only in Hro. unfold names_ok in Hnm. rewrite Forall_forall in Hro, Hnm.
+        assert (Hfq : fg g q = true).
+        { unfold fg. rewrite (Hro q Hq), (Hnm q Hq g Hqn). simpl. apply Nat.eqb_refl. }
+        assert (Hin : In q (filter (fg g) (others (s_store s)))) by (apply filter_In; auto).
+        rewrite <- Hl in Hin. destruct Hin.
+    - (* a reservation pod exists: use its device *)
+      assert (Hp_in : In p (others (s_store s))).
+      { assert (Hx : In p (filter (fg g) (others (s_store s)))) by (rewrite <- Hl; left; reflexivity).
+        apply filter_In in Hx. tauto. }
+      destruct (p_idx p) as [i |] eqn:Ei.
+      + unfold rg_post. destruct (label_consumer_spec g i s1 HI1 HM1) as (L1 & L2 & L3 & L4 & L5 & L6).
+        split; [exact L1 |]. split; [lia |]. split; [congruence |]. split; [congruence |].
+        split.
+        * intros i' Hi'. destruct (L5 i' Hi') as (-> & LM & Lo & Lp & Lmu & Lg).
+          split; [exact LM |]. rewrite Hst1 in Lp, Lmu, Lo.
+          split; [rewrite rsv_idx_ridx, Lo; unfold ridx; rewrite <- Hl; exact Ei |].
+          split; [intros g' j Hj; rewrite rsv_idx_ridx in *; rewrite Lo; exact Hj |].
+          split; [exact Lp |]. split; [exact Lmu | exact Lg].
+        * intros Hnf Hdp Hlv. split; [eexists; apply L6; lia |].
+          assert (Hi' : snd (exec (label_consumer sc g i) s1) = Some i) by (apply L6; lia).
+          destruct (L5 i Hi') as (_ & _ & Lo & _). rewrite Hst1 in Lo.
+          destruct Hlv as ((Hro & Hnm) & Han). unfold Live, SH, rsv_only, names_ok, annotated. rewrite Lo. auto.
+      + apply Hnone; [reflexivity |]. intros _ _ (_ & Han). unfold annotated in Han.
+        rewrite Forall_forall in Han. specialize (Han p Hp_in). rewrite Ei in Han. discriminate.
+  Qed.
+
+  Fixpoint last_opt (l : list nat) : option nat :=
+    match l with
+    | [] => None
+    | [x] => Some x
+    | _ :: r => last_opt r
+    end.
+
+  Lemma last_opt_app l x : last_opt (l ++ [x]) = Some x.
+  Proof.
+    induction l as [| y l IH]; [reflexivity |]. simpl. destruct (l ++ [x]) eqn:E; [| exact IH].
+    destruct l; discriminate.
+  Qed.
+
+  (** the labels of the groups reserved so far *)
+  Definition Lab (done : list gid) (p : pod) : Prop :=
+    if sc_multi sc then (forall g, In g done -> In g (p_multi p))
+    else (forall g, last_opt done = Some g -> p_plain p = Some g).
+
+  Definition rl_post (done gs : list gid) (s s' : state) (r : option (list nat)) : Prop :=
+    INV s' /\ s_nfail s <= s_nfail s'
+    /\ cm_cap (s_store s') = cm_cap (s_store s) /\ cm_evar (s_store s') = cm_evar (s_store s)
+    /\ (forall idxs, r = Some idxs ->
+          M s' /\ Lab (done ++ gs) (self (s_store s')) /\ all_idx (done ++ gs) (s_store s') = Some idxs)
+    /\ (s_nfail s' = s_nfail s -> dp_ok -> Live (s_store s) -> (exists idxs, r = Some idxs) /\ Live (s_store s')).
+
+  Lemma reserve_loop_spec gs : forall done acc s,
+    INV s -> M s -> Lab done (self (s_store s)) -> all_idx done (s_store s) = Some acc ->
+    rl_post done gs s (fst (exec (reserve_loop sc gs acc) s)) (snd (exec (reserve_loop sc gs acc) s)).
+  Proof.
+    induction gs as [| g gs IH]; intros done acc s HI HM HL HA.
+    - unfold rl_post. cbn [reserve_loop Binder.exec fst snd]. rewrite app_nil_r.
+      split; [exact HI |]. split; [lia |]. split; [reflexivity |]. split; [reflexivity |].
+      split; [intros idxs Hx; injection Hx as <-; auto |]. intros _ _ Hl. eauto.
+    - cbn [reserve_loop]. rewrite exec_bind.
+      destruct (reserve_gpu_spec g s HI HM) as (R1 & R2 & R3 & R4 & R5 & R6).
+      destruct (exec (reserve_gpu sc g) s) as [s1 oi]. cbn [fst snd] in *.
+      destruct oi as [i |].
+      + destruct (R5 i eq_refl) as (RM & Rg & Rpres & Rp & Rmu & Rgin).
+        assert (HL1 : Lab (done ++ [g]) (self (s_store s1))).
+        { unfold Lab in *. destruct (sc_multi sc).
+          - intros x Hx. apply in_app_iff in Hx as [Hx | [<- | []]]; auto.
+          - intros x Hx. rewrite last_opt_app in Hx. injection Hx as <-. exact Rp. }
+        assert (HA1 : all_idx (done ++ [g]) (s_store s1) = Some (acc ++ [i])).
+        { apply all_idx_app; [| exact Rg]. eapply all_idx_ext; [| exact HA]. intros g' j _ Hj. apply Rpres, Hj. }
+        specialize (IH (done ++ [g]) (acc ++ [i]) s1 R1 RM HL1 HA1).
+        destruct IH as (I1 & I2 & I3 & I4 & I5 & I6). unfold rl_post.
+        split; [exact I1 |]. split; [lia |]. split; [congruence |]. split; [congruence |].
+        split.
+        * intros idxs Hx. destruct (I5 idxs Hx) as (A & B & C). rewrite <- app_assoc in B, C. auto.
+        * intros Hnf Hdp Hl. destruct (R6 ltac:(lia) Hdp Hl) as (_ & Hl1). apply I6; auto. lia.
+      + unfold rl_post. cbn [Binder.exec fst snd].
+        split; [exact R1 |]. split; [exact R2 |]. split; [exact R3 |]. split; [exact R4 |].
+        split; [discriminate |]. intros Hnf Hdp Hl. destruct (R6 Hnf Hdp Hl) as ((i & Hi) & _). discriminate.
+  Qed.
+
+  (** ** config maps *)
+  Lemma list_nat_eqb_eq a : forall b, list_nat_eqb a b = true -> a = b.
+  Proof.
+    induction a as [| x a IH]; intros [| y b] H; simpl in H; try discriminate; [reflexivity |].
+    apply andb_true_iff in H as (H1 & H2). apply Nat.eqb_eq in H1. subst. f_equal. apply IH, H2.
+  Qed.
+
+  Lemma cval_eqb_eq a b : cval_eqb a b = true -> a = b.
+  Proof.
+    destruct a, b; simpl; intros H; try discriminate; try reflexivity. f_equal. apply list_nat_eqb_eq, H.
+  Qed.
+
+  Lemma opt_cval_eqb_eq a b : opt_cval_eqb a b = true -> a = b.
+  Proof. destruct a, b; simpl; intros H; try discriminate; [f_equal; apply cval_eqb_eq, H | reflexivity]. Qed.
+
+  Lemma data_patch old new :
+    (forall k, data_get k new = None -> data_get k old = None) ->
+    data_apply (data_diff old new) old = new.
+  Proof.
+    intros H. destruct old as [a b c d], new as [a' b' c' d'].
+    pose proof (H ENumGpusBC) as H1. pose proof (H EPortion) as H2.
+    pose proof (H EVisible) as H3. pose proof (H EVisibleBC) as H4. simpl in H1, H2, H3, H4. clear H.
+    unfold data_diff, diff_key, data_apply. cbn [data_get d_num d_portion d_vis d_visbc].
+    destruct a' as [va |]; [destruct (opt_cval_eqb a (Some va)) eqn:Ea; [apply opt_cval_eqb_eq in Ea; subst a |] | rewrite (H1 eq_refl)];
+    (destruct b' as [vb |]; [destruct (opt_cval_eqb b (Some vb)) eqn:Eb; [apply opt_cval_eqb_eq in Eb; subst b |] | rewrite (H2 eq_refl)]);
+    (destruct c' as [vc |]; [destruct (opt_cval_eqb c (Some vc)) eqn:Ec; [apply opt_cval_eqb_eq in Ec; subst c |] | rewrite (H3 eq_refl)]);
+    (destruct d' as [vd |]; [destruct (opt_cval_eqb d (Some vd)) eqn:Ed; [apply opt_cval_eqb_eq in Ed; subst d |] | rewrite (H4 eq_refl)]);
+    reflexivity.
   Qed.
 End Main.
